@@ -244,6 +244,25 @@ CHECKS["C12"] = dict(
 
 NA = {}
 
+# third round: what was added per property (appended to the level note; obligations labelled numeric-only are supplements on
+# the real code with float data and are NOT part of the symbolic claim)
+ROUND3 = {
+    "C01": "degenerate networks (single tensor, lone scalar, outer product); 'network untouched / repeated evaluation' goals",
+    "C03": "network sums with the stored axes of either operand permuted independently and with stored exponents on either operand",
+    "C04": "one step from an arbitrary flagged isometry under every tensor-level method (symbolic); graded singular values against default cutoffs (numeric-only)",
+    "C06": "every MPS gate entry point on mixed-dimension chains for every ordered site tuple; gate_with_mpo / submpo / nonlocal x transpose x method x inplace (symbolic for contract False/True and lazy, numeric-only for factorising entries)",
+    "C07": "PEPS / PEPO simple-update circuit classes on tree geometries (numeric-only)",
+    "C08": "consumer family on complex canonical states (symbolic); all-pairs swaps, nonlocal-gate option grid, circuit copy independence and dtype= queries (numeric-only)",
+    "C09": "SpinHam1D term lists and named Hamiltonian generators against an independent dense sum (tables compared by evaluation)",
+    "C10": "DMRG2 bond_compress_method x sweep sequence x cap grid (numeric-only)",
+    "C11": "LocalHam2D / LocalHam3D term assembly (symbolic); histories of evolve / read / assign state on one simple-update driver incl. update='parallel' (numeric-only)",
+    "C12": "around= targets on unequal-sided 2D / 3D lattices (structure symbolic, values numeric-only); rank-deficient bonds x mode x canonize (numeric-only)",
+    "C13": "normalize() of 2D vector networks with extra tensors; canonical routes without a record on states canonical up to scalars (numeric-only)",
+    "C14": "normalize_tensors then reads from the same D1BP object (symbolic, sign forks); sequences of value reads from one D1BP / D2BP / HD1BP object incl. hyper regions and stored exponents (numeric-only)",
+    "C17": "every history of <= 3 scalings of a Lazy operator with symbolic factors",
+}
+SECOND_SOLVER = "; every deciding linear query (identity, certificate, certificate consistency) and the first pruned branches of every concolic exploration are re-decided by a second solver (cvc5) from the SMT-LIB text z3 exports, disagreement = inconclusive"
+
 
 def main():
     checks = []
@@ -259,8 +278,8 @@ def main():
             "replay_cmd_template": f"./check {pid} --replay {{path}}",
             "engine": "qv",
             "level_claimed": {"category": "model_checking", "text": c["text"], "design_ref": c["design"]},
-            "level_note": c["note"],
-            "technique": c["technique"],
+            "level_note": c["note"] + (" Third-round additions: " + ROUND3[pid] + "." if pid in ROUND3 else ""),
+            "technique": c["technique"] + SECOND_SOLVER,
         })
     na = [{"property_id": p, "reason": NA.get(p, "check not built yet in this round (planned, see DESIGN.md section 3)")}
           for p in ALL if p not in CHECKS]
